@@ -650,6 +650,87 @@ class ConstPrograms:
         return res, skipped
 
 
+class MemCheck:
+    """C04: one executable per architecture (guard pages, every pointer offset), run in parallel and merged."""
+
+    def build(self, *a, asan=False):
+        run, skipped = vlib.runnable_archs()
+        from concurrent.futures import ThreadPoolExecutor
+        out, errs = {}, {}
+
+        def one(arch):
+            name, tag, flags, _ = vlib.ARCH_BY_NAME[arch]
+            fl = flags.split() + ["-DXV_ARCH=" + tag, '-DXV_ARCH_NAME="%s"' % name]
+            if asan:
+                fl += ["-fsanitize=address", "-fno-omit-frame-pointer", "-g"]
+            target, (ok, log) = vlib.build_exe("xvmem.%s%s" % (arch, ".asan" if asan else ""), os.path.join(vlib.VERIF, "harness", "h_mem.cpp"), flags=fl, libs=["-lpthread"], opt="-O2")
+            return arch, target, ok, log
+        with ThreadPoolExecutor(max_workers=vlib.NPROC) as ex:
+            for arch, target, ok, log in ex.map(one, run):
+                if ok:
+                    out[arch] = target
+                else:
+                    errs[arch] = log
+        if errs:
+            for a, log in errs.items():
+                sys.stderr.write("---- build of the memory harness for %s failed ----\n%s\n" % (a, "\n".join([l for l in log.splitlines() if "error" in l][:15])))
+            print("[vcheck] C04: the memory harness does not compile for %s against the current tree" % ",".join(sorted(errs)))
+            sys.exit(2)
+        return out, run, skipped
+
+    def run(self, prop, tier, seed):
+        t0 = time.time()
+        exes, run, skipped = self.build()
+        variants = [("", exes, {})]
+        if tier == "thorough":
+            aexes, _, _ = self.build(asan=True)
+            variants.append(("asan", aexes, {"ASAN_OPTIONS": "handle_segv=0:handle_sigbus=0:detect_leaks=0:halt_on_error=1"}))
+        os.makedirs(vlib.OUT, exist_ok=True)
+        merged = {"states": 0, "transitions": 0, "distinct_nontrivial": 0, "violations": [], "by_key": {}, "by_finding": {}, "per_op": {}, "per_arch_points": {}, "architectures": run,
+                  "exhaustive": True, "notes": [], "samples": []}
+        from concurrent.futures import ThreadPoolExecutor
+
+        def one(job):
+            label, arch, exe, env = job
+            out = os.path.join(vlib.OUT, "%s.%s.%s%s.json" % (prop, tier, arch, label))
+            if os.path.exists(out):
+                os.unlink(out)
+            p = subprocess.run([exe, "--out", out, "--tier", tier, "--seed", str(seed)], stdout=subprocess.PIPE, stderr=subprocess.STDOUT, text=True, env=dict(os.environ, **env))
+            return label, arch, p.returncode, p.stdout, out
+        jobs = [(label, a, ex[a], env) for label, ex, env in variants for a in run]
+        with ThreadPoolExecutor(max_workers=vlib.NPROC) as ex:
+            for label, arch, rc, txt, out in ex.map(one, jobs):
+                if rc != 0 or not os.path.exists(out):
+                    merged["violations"].append({"property": prop, "op": "harness run", "type": label or "plain", "arch": arch, "finding": "", "in": [],
+                                                 "note": "the %s memory harness died with status %d: %s" % (label or "plain", rc, txt[-400:])})
+                    merged["by_key"]["harness|run|%s|" % arch] = 1
+                    continue
+                r = json.load(open(out))
+                merged["states"] += r["states"]
+                merged["transitions"] += r["transitions"]
+                merged["distinct_nontrivial"] += r["states"]
+                merged["per_arch_points"][arch] = merged["per_arch_points"].get(arch, 0) + r["states"]
+                merged["violations"] += r["violations"]
+                for k, v in r["by_key"].items():
+                    merged["by_key"][k] = merged["by_key"].get(k, 0) + v
+                if arch in ("sse2", "avx512bw") and not label:
+                    merged["notes"].append("%s: %d (operation, placement) pairs, %d operations/type instances" % (arch, r["states"], len(r["per_op"])))
+        merged["violations_unknown"] = merged["violations_total"] = sum(merged["by_key"].values()) if merged["by_key"] else len(merged["violations"])
+        merged["samples"] = [{"operation": "store_aligned<int16> on avx2", "placement": "buffer ends exactly at the PROT_NONE page", "checked": "32 bytes equal the lanes, 160 bytes before the buffer unchanged, no fault"},
+                             {"operation": "load_as<double>(const int8*) on sse2", "placement": "2-byte footprint straddling the page boundary at every offset", "checked": "lanes equal the converted elements, no fault"}]
+        merged["wall_s"] = time.time() - t0
+        rule = ("every load/store form of every element type (plain, tag-dispatched, free functions, bool arrays, interleaved complex, all 100 converting load_as/store_as pairs) is executed at every start address of three placement windows "
+                "(starting right after a PROT_NONE page, straddling a page boundary at every offset, ending right at a PROT_NONE page; aligned forms at every multiple of the alignment): a read or write of one byte outside the "
+                "size*sizeof(T) footprint faults; after a store the 160 bytes on both sides are compared with their pattern; gather/scatter over index-vector families with the table between guard pages; "
+                "states = (operation, placement) pairs; transitions = lanes / bytes compared")
+        bound = {"quick": "offsets 0..127+alignment from both guard pages and every offset within footprint+130 bytes of the page boundary; two data assignments (all bytes distinct; signalling-NaN payloads); gather/scatter: all (2n)^n index vectors for n <= 4, identity, reverse, every constant, strides and every single deviation beyond; all 22 architectures",
+                 "thorough": "as quick, plus the same harness built with AddressSanitizer (catches overflows of the kernels' internal stack scratch buffers)"}[tier]
+        return _finish(prop, tier, seed, merged, skipped, rule, bound, ["the kernel delivers SIGSEGV for any access to the PROT_NONE pages (mmap/mprotect)"], None, replay_kind="mem")
+
+    def replay(self, prop, path):
+        return self.run(prop, "quick", 0)
+
+
 RULE_MATH = ("every point of the stated argument space is evaluated twice, once among neighbouring arguments and once in a strided order where "
              "the lanes of one batch come from 16 distant parts of the space, by every architecture's real kernel; each lane result is judged "
              "against the exact value (ulp bound inside the normal range, graceful-degradation predicate outside); states = arguments x orders; "
@@ -664,6 +745,7 @@ CHECKS = {
     "C01": Elementwise(["int"], RULE_EW, {
         "quick": "8-bit: all 65536 operand pairs x 64 lane offsets, ternary ALL8^2 x L8; 16-bit: ALL16 x L16, L16 x ALL16, L16^2 x 32 lane offsets; 32/64-bit: boundary lattice^2 (incl. 64 seed symbols) x all lane offsets; all 22 architectures",
         "thorough": "as quick plus all 2^32 16-bit operand pairs, ALL8^3 for the ternary operations, larger 32/64-bit lattices"}),
+    "C04": MemCheck(),
     "C05": PermCheck("perm", "every compile-time mask of the generated families is one program (template instantiation) per (architecture, element type); which (operation, type) pairs the library accepts is decided by trial compilation; each program / count / run-time index vector / mask is executed on lane-tagged batches (every byte distinct; signalling-NaN payloads) and compared bit-exactly with the index-level definition of the property; states = (operation, parameter, tag assignment) points; transitions = lane results compared", {
         "quick": "constant swizzle: all 4 / 256 masks for 2 / 4 lanes, 153..364 family masks per wider lane count (identity, reverse, every broadcast, every rotation, swaps, dup-low/high, evens/odds, unpack, in-128-bit-lane patterns replicated and taken from the next lane, every single deviation i->j, seed masks and permutations); constant shuffle: all 16 for 2 lanes, 145..292 masks hitting every detector (swizzle_fst/snd, zip_lo/hi, select, windows, AVX in-lane forms) and their one-index perturbations; run-time swizzle: all n^n index vectors for n <= 4, the families and pairs of deviations beyond; slide_left/right for every byte count in [0, register bytes]; rotate_left/right, extract_pair, insert, get for every index; zip_lo/hi; transpose; compress/expand for all 2^n masks (n <= 16) and ~450 structured masks for 32/64 lanes; all 22 architectures",
         "thorough": "larger families (637..1031 swizzle masks per lane count, all 4096 4-lane shuffles, all 8^8 run-time index vectors for 8 lanes, 4096 seed masks for compress/expand on 32/64 lanes)"}),
